@@ -40,7 +40,7 @@
    composition for the scalar value types (read_signals_ops /
    read_signals_time_table give well-formedness and the time table for all of them), the hierarchy; those are decided by the correspondence run on signal sections and by the GHW
    file generator (MANIFEST level_note). *)
-From WV Require Import Model.Base Model.Bits Model.WaveMem Model.Ghw Spec.TimeSpec Proofs.TimeTableProofs Proofs.BitsProofs Proofs.StoreProofs Proofs.RawProofs Proofs.VecProofs Proofs.VecStepProofs Proofs.GhwProofs Proofs.GhwCycleProofs Model.Leb128
+From WV Require Import Generated.Consts Model.Base Model.Bits Model.WaveMem Model.Ghw Spec.TimeSpec Proofs.TimeTableProofs Proofs.BitsProofs Proofs.StoreProofs Proofs.RawProofs Proofs.VecProofs Proofs.VecStepProofs Proofs.GhwProofs Proofs.GhwCycleProofs Model.Leb128
   Model.Hierarchy Model.FstHier Model.GhwAlias Model.GhwHier Proofs.GhwHierProofs Proofs.GhwStringProofs.
 From Coq Require Import Sorted List. Import ListNotations.
 Open Scope N_scope.
@@ -253,6 +253,27 @@ Check record_fields :
   forall h strings fs names g inp,
   Forall2 (fun f n => nthN strings (fst f) = Some n) fs names ->
   record_loop h strings fs g inp = feed_fields h (combine names (map snd fs)) g inp.
+
+(* a signal of a scalar or vector type becomes exactly one variable *)
+Check ghw_leaf_var :
+  forall debug f strings types max_id dir g nm tid inp ty tn vt enc idx g' r,
+  get_type_and_name debug strings types tid = Ok (ty, tn) ->
+  leaf_shape ty tn = Some (vt, enc, idx) ->
+  (match ty with TNineVec _ rg | TBitVec _ rg => Z.to_N (Z.abs (ir_len rg)) mod 4294967296 <> 0 /\
+                                                  (match rg with IR _ l rr => (-2147483648 < l - rr < 2147483648)%Z end)
+            | _ => True end) ->
+  add_var debug (S f) strings types max_id dir g nm tid inp = Ok (g', r) ->
+  exists ref, g_calls g' = g_calls g ++ [FcVar nm vt dir enc idx ref None (Some tn)].
+Check (eq_refl : leaf_shape = fun ty tn =>
+  match ty with
+  | TNineBit _ | TBit _ => Some (bit_var_type tn, EncBits 1, None)
+  | TI32 _ _ => Some (VarType_Integer, EncBits 32, None)
+  | TF64 _ => Some (VarType_Real, EncReal, None)
+  | TNineVec _ (IR _ l r) | TBitVec _ (IR _ l r) =>
+      Some (vec_var_type tn, bits_enc (Z.to_N (Z.abs (ir_len (match ty with TNineVec _ rg | TBitVec _ rg => rg | _ => IR false 0 0 end))) mod 4294967296),
+            Some (l, r))
+  | _ => None
+  end).
 Check enum_bits_spec :
   forall n, (1 <= n)%nat ->
   exists b, enum_bits n = Ok b /\ N.of_nat n <= 2 ^ b /\ (b = 0 \/ 2 ^ (b - 1) < N.of_nat n).
@@ -284,6 +305,7 @@ Check (eq_refl : len_code = fix len_code fuel n :=
 Check string_table_example.
 
 Print Assumptions string_table_decoded.
+Print Assumptions ghw_leaf_var.
 Print Assumptions array_labels.
 Print Assumptions record_fields.
 Print Assumptions enum_bits_spec.
